@@ -1337,7 +1337,15 @@ impl<'a> Gen<'a> {
             let guard = if self.rng.chance(2, 3) { "count > 0 and count < 30" } else { "true" };
             let other: Vec<String> = params.iter().filter(|p| p.name != "count" && !p.has_default).map(|p| format!("{}={{{}}}", p.name, p.name)).collect();
             let open = self.tag(&format!("if {}", guard));
-            let call = self.var(&format!("<{} count={{count - 1}} {}/>", name, other.join(" ")));
+            // self-closing, or wrapping a body (the depth limit must count both forms)
+            let call = if self.rng.chance(1, 2) {
+                self.var(&format!("<{} count={{count - 1}} {}/>", name, other.join(" ")))
+            } else {
+                let o = self.tag(&format!("<{} count={{count - 1}} {}>", name, other.join(" ")));
+                let c = self.tag(&format!("</{}>", name));
+                let inner = if self.rng.chance(1, 2) { self.var("body") } else { "x".to_string() };
+                format!("{}{}{}", o, inner, c)
+            };
             let close = self.tag("endif");
             body.push_str(&format!("{}{}{}", open, call, close));
         }
